@@ -310,7 +310,7 @@ class Builder:
                 # superset of the shared key columns, so the meaning is that of Relation.join)
                 j = R.Join(p if p is not None else R.Predicate.literal(True), max_columns=frozenset(T(x) for x in jopt["maxc"]))
                 if jopt.get("partial"):
-                    return j.partial(args[1]).apply(args[0])
+                    return j.partial(args[1], is_lhs=bool(jopt.get("is_lhs"))).apply(args[0])
                 return j.apply(args[0], args[1])
             return args[0].join(args[1], p, **{k: v for k, v in (("backtrack", jopt.get("bt")), ("transfer", jopt.get("tr"))) if v is not None})
         t = args[0]
